@@ -43,7 +43,8 @@ prop("C05", "emitted packets well-formed, fields as requested", "exploration",
      "distinct = FNV-64 of the case JSON (API cases) / the length (codec cases).",
      [dict(tests="^TestVerifC05_LenCodecAll$", exhaustive_once=True),
       dict(tests="^TestVerifC05_Len$", checks_quick=6000, checks_thorough=40000, shards=4),
-      dict(tests="^TestVerifC05_Packets$", checks_quick=5000, checks_thorough=40000, shards=12)],
+      dict(tests="^TestVerifC05_Packets$", checks_quick=5000, checks_thorough=40000, shards=12),
+      dict(tests="^TestVerifC05_ViaRetry$", checks_quick=1500, checks_thorough=8000, shards=6)],
      assumptions=["inputs the API documents as panics are excluded (strings > 65535 bytes, packets > 268435455 bytes, QoS>2 in Subscribe)",
                   "password without user name, empty topics, wildcards in topic names, invalid UTF-8 are not generated",
                   "len(payload) == MaxPayloadLen is not generated (the code rejects it, the property only says 'over the maximum')"],
